@@ -1691,6 +1691,61 @@ def render(e, transparent=True, depth=0):
     return '⊤(%s)' % (e[1] if len(e) > 1 else k)
 
 
+ITER_SAME = re.compile(r'IntoIterator>::into_iter$|slice::<impl \[T\]>::iter(_mut)?$|Vec::<.*>::iter(_mut)?$|Iterator>?::(by_ref|cloned|copied|peekable|fuse)$|'
+                       r'(Deref|DerefMut)>::deref(_mut)?$|Vec::<.*>::as_slice$|Iterator>?::collect$|FromIterator<.*>>::from_iter$|Borrow<.*>>::borrow$')
+
+
+def iter_element(facts, it, _depth=0):
+    """the expression of *the current element* of an iterator / collection expression, position for position:
+    iter(X) -> elem(X); zip(A, B) -> (elem(A), elem(B)) (the same position of both); map(A, f) -> f(elem(A));
+    collect(A) -> elem(A); enumerate(A) -> (position, elem(A)). A source that is not one of these is the leaf elem(source).
+    Identities of the std adaptors; nothing is said about *which* position, only that all parts are at the same one."""
+    if _depth > 12:
+        return None
+    e = it
+    while e[0] in ('ref', 'deref') or (e[0] == 'cast' and (e[1].startswith('PointerCoercion') or e[1] in ('PtrToPtr',))):
+        e = e[3] if e[0] == 'cast' else e[1]
+    if e[0] == 'call' and e[2]:
+        path = e[1]
+        if ITER_SAME.search(path):
+            return iter_element(facts, e[2][0], _depth + 1)
+        if re.search(r'Iterator>?::zip$', path) and len(e[2]) == 2:
+            a, b = iter_element(facts, e[2][0], _depth + 1), iter_element(facts, e[2][1], _depth + 1)
+            if a is None or b is None:
+                return None
+            return ('aggr', 'tuple', [a, b], [])
+        if re.search(r'Iterator>?::map$', path) and len(e[2]) == 2:
+            a = iter_element(facts, e[2][0], _depth + 1)
+            if a is None:
+                return None
+            return apply_closure(facts, e[2][1], [a])
+        if re.search(r'Iterator>?::enumerate$', path):
+            a = iter_element(facts, e[2][0], _depth + 1)
+            if a is None:
+                return None
+            return ('aggr', 'tuple', [('call', 'position', [e[2][0]], None), a], [])
+        if re.search(r'Iterator>?::(filter|skip|take|rev|step_by|skip_while|take_while|chain|flatten|flat_map|filter_map)$', path):
+            return None                              # positions are not preserved: left as it is
+    return ('call', 'elem', [e], None)
+
+
+def resolve_elements(facts, e):
+    """rewrite every `(next(IT) as Some).0` inside e to the element expression of IT (see iter_element)"""
+    def f(n):
+        if n[0] == 'field' and n[1][0] == 'downcast' and n[1][2] == 'Some' and str(n[2]).lstrip('#') == '0':
+            src = n[1][1]
+            while src[0] in ('ref', 'deref'):
+                src = src[1]
+            if src[0] == 'call' and re.search(r'Iterator>?::next$', src[1]) and src[2]:
+                el = iter_element(facts, src[2][0])
+                if el is not None and not (el[0] == 'call' and el[1] == 'elem' and el[2][0][0] in ('loop', 'phi', 'top', 'undef')):
+                    return el
+        if n[0] == 'field':
+            return simplify_field(n)
+        return n
+    return rebuild(e, f)
+
+
 def walk(e, transparent=False):
     """pre-order traversal of sub-expressions"""
     yield e
